@@ -8,7 +8,7 @@
     not the property; the general [_partial] statements they sample are
     written out in the comments). *)
 From InvokeVerif Require Import Model.CollModel Spec.C10Spec Corr.C10Corr
-     Proofs.CollStrings Proofs.C17_path Proofs.C10_build Proofs.C10_names Proofs.C10_flat.
+     Proofs.CollStrings Proofs.C17_path Proofs.C10_build Proofs.C10_names Proofs.C10_flat Proofs.C10_deep.
 
 (** Underscore/dash normalisation is consistent: idempotent, the later of two
     normalisations wins (so a name passed down through collections with
@@ -83,6 +83,32 @@ Theorem C10_cli_iff_lookup_partial : forall cn tasks aliases dflt ad cfg n,
   flat_guard (Coll cn tasks aliases [] dflt ad cfg) = true ->
   name_ok ad n (model_nobs (Coll cn tasks aliases [] dflt ad cfg) n) = true.
 Proof. intros. apply flat_names_agree. assumption. Qed.
+
+(** Any depth, the lookup half of the agreement, proved in general: for EVERY
+    tree (any nesting, default tasks and default sub-collections at any level,
+    aliases, binding-level aliases included) and EVERY canonical dotted name,
+    [collection[name]] returns task t iff the reference walk of Spec/C17Spec
+    ([ref_path]: names, aliases and default shortcuts, segment by segment)
+    resolves the name to t; in particular [name in collection] holds exactly
+    for the canonical names of the reference.  Guards: one auto-dash setting
+    throughout ([uniform]; with mixed settings each level re-spells the
+    remainder, F-C10d lives there), bindings distinct and canonical ([ns_wf],
+    [ns_canon]: invariants of build, C10_build_canonical), configurations
+    type-consistent along every path ([compat_down]; otherwise lookup raises
+    AmbiguousMergeError).  The other half -- the parser registry built from
+    task_names accepts exactly these names minus F-C10a/F-C10b -- is proved
+    for flat namespaces above and sampled by the sweep below. *)
+Theorem C10_lookup_iff_reference_partial : forall c n t,
+  uniform (c_auto_dash c) c = true -> ns_wf c = true -> ns_canon c = true ->
+  compat_down [] c = true -> canonical (c_auto_dash c) n = true ->
+  (getitem c n = Ok t <-> exists cfgs, ref_path c (split_char "." n) = Some (t, cfgs)).
+Proof. exact lookup_iff_reference. Qed.
+
+Theorem C10_contains_iff_reference_partial : forall c n,
+  uniform (c_auto_dash c) c = true -> ns_wf c = true -> ns_canon c = true ->
+  compat_down [] c = true -> canonical (c_auto_dash c) n = true ->
+  (contains c n = Ok true <-> exists t cfgs, ref_path c (split_char "." n) = Some (t, cfgs)).
+Proof. exact contains_iff_reference. Qed.
 
 (** Inside the guards (clean script, no default sub-collection below the root,
     no binding-level aliases) the agreement holds on every tree of the sweep:
@@ -165,3 +191,24 @@ Example C10_example_flat_guard :
                  ITask (mkTask 2 "other" [] true) None [] None] None false) = Ok c /\
     flat_guard c = true /\ contains c "m-t" = Ok true /\ contains c "m_t" = Ok true.
 Proof. eexists. split; [vm_compute; reflexivity|]. repeat split; vm_compute; reflexivity. Qed.
+
+(** Non-vacuity of the any-depth guards: three levels, configured collections,
+    a default task reached through two collection names. *)
+Example C10_example_deep_guards :
+  exists c t,
+    build (ISub None true (Node [("k", Node [("x", Leaf (VInt 0))])])
+                [ITask (mkTask 1 "top" ["t_al"] false) None [] None;
+                 ISub (Some "sub") true (Node [("k", Node [("y", Leaf (VInt 1))])])
+                      [ITask (mkTask 2 "my_task" ["al_x"] false) None ["extra"] (Some true);
+                       ISub (Some "in_ner") true (Node [])
+                            [ITask (mkTask 3 "deep" [] false) None [] (Some true)] None false]
+                      None true] None false) = Ok c /\
+    uniform (c_auto_dash c) c = true /\ ns_wf c = true /\ ns_canon c = true /\
+    compat_down [] c = true /\ canonical (c_auto_dash c) "sub.in-ner" = true /\
+    getitem c "sub.in-ner" = Ok t /\ t_id t = 3 /\
+    (exists cfgs, ref_path c ["sub"; "extra"] = Some (mkTask 2 "my_task" ["al_x"] false, cfgs)).
+Proof.
+  eexists. eexists. split; [vm_compute; reflexivity|].
+  repeat split; try (vm_compute; reflexivity).
+  eexists. vm_compute. reflexivity.
+Qed.
